@@ -21,11 +21,12 @@ OCAML_PACKAGES = ['coq-core.kernel']
 OCAML_FLAGS = '-rectypes -thread'
 
 RULE = ('kernel/exhaustive: every free/blocked layout (blocked = barrier value or NaN) x every start/goal pair x connectivity 4/8 on '
-        'all grids up to 3x3 (quick) / 3x4 (thorough) through the jitted _a_star_search, every layout x cell through '
+        'all grids up to 3x3 plus 2x4, 4x2, 1x5, 5x1 (quick) / up to 3x4 and 4x3 (thorough) through the jitted _a_star_search, every layout x cell through '
         '_find_nearest_pixel; api: a_star_search on sampled small layouts and random mazes <= 9x9 with forced detours (walls with '
         'one gap), snap on/off, ascending/descending coordinates with steps 1, 0.1, 0.25, 1/3, 0.5, 2, 30 and offsets, points on '
         'cell centres, off-centre, exactly between centres and within half a cell outside the first/last centre, with and without '
-        'a res attribute; pixel: _get_pixel_id alone on the same coordinate families. A case is non-trivial when it has >= 1 '
+        'a res attribute, float64 and int64 rasters; pixel: _get_pixel_id alone on the same coordinate families; a sample of detour cases is '
+        'first run in a child process with a timeout so that a non-terminating search loop is reported as a failing input. A case is non-trivial when it has >= 1 '
         'crossable cell; cases are distinct by their JSON encoding.')
 TRUSTED = [
     'the search state (is_open, is_closed, d_from_start, cost, parents) is modelled as pointwise-updated total functions on cells, '
@@ -550,18 +551,18 @@ def layouts(h, w):
         yield [list(bits[r * w:(r + 1) * w]) for r in range(h)]
 
 
-def decorate(rng, lay):
-    """free cells get assorted values, blocked cells a barrier value or NaN"""
+def decorate(rng, lay, integer=False):
+    """free cells get assorted values, blocked cells a barrier value or NaN (integer rasters: barrier values only)"""
     barriers = [0.0] if rng.random() < 0.6 else [0.0, 7.0]
     data = []
     for row in lay:
         r = []
         for v in row:
             if v:
-                r.append(float(rng.choice([1, 1, 2, 3, 5])) if rng.random() < 0.9 else float('inf'))
+                r.append(float(rng.choice([1, 1, 2, 3, 5])) if (integer or rng.random() < 0.9) else float('inf'))
             else:
                 u = rng.random()
-                r.append(float('nan') if u < 0.35 else (barriers[-1] if u < 0.6 else 0.0))
+                r.append(float('nan') if (u < 0.35 and not integer) else (barriers[-1] if u < 0.6 else 0.0))
         data.append(r)
     return data, barriers
 
@@ -629,9 +630,9 @@ def point_for(rng, coords, step, i, fam):
     return c + sgn * f * step
 
 
-def gen_api_case(rng, lay, conn=None, snap=None, unit=False, fam=None):
+def gen_api_case(rng, lay, conn=None, snap=None, unit=False, fam=None, dtype='float64'):
     h, w = len(lay), len(lay[0])
-    data, barriers = decorate(rng, lay)
+    data, barriers = decorate(rng, lay, integer=(dtype != 'float64'))
     if unit:
         ys, sy_ = [float(i) for i in range(h)], 1.0
         xs, sx_ = [float(i) for i in range(w)], 1.0
@@ -653,7 +654,7 @@ def gen_api_case(rng, lay, conn=None, snap=None, unit=False, fam=None):
     if h < 2 or w < 2 or rng.random() < 0.2:
         res = (abs(sx_), abs(sy_))
     snap = snap if snap is not None else (rng.random() < 0.4, rng.random() < 0.4)
-    case = dict(fn='api', data=data, barriers=barriers, conn=conn or rng.choice([4, 8]), snap_start=bool(snap[0]),
+    case = dict(fn='api', data=data, barriers=barriers, dtype=dtype, conn=conn or rng.choice([4, 8]), snap_start=bool(snap[0]),
                 snap_goal=bool(snap[1]), ys=ys, xs=xs, res=res, fam=fam,
                 start=[point_for(rng, ys, sy_, s[0], fam), point_for(rng, xs, sx_, s[1], fam)],
                 goal=[point_for(rng, ys, sy_, g[0], fam), point_for(rng, xs, sx_, g[1], fam)])
@@ -744,7 +745,8 @@ def api_batch(ctx, cases, label):
     pending = []
     for case in cases:
         ctx.case(case, nontrivial=any(not blocked_val(v, case['barriers']) for row in case['data'] for v in row))
-        ctx.count('%s/conn%d/snap%d%d/%s' % (label, case['conn'], case['snap_start'], case['snap_goal'], case.get('fam', '-')))
+        ctx.count('%s/conn%d/snap%d%d/%s/%s' % (label, case['conn'], case['snap_start'], case['snap_goal'], case.get('fam', '-'),
+                                          case.get('dtype', 'float64')))
         res = run_api(case)
         o = oracle_api(case, res)
         if o is not None:
@@ -880,25 +882,79 @@ def exact_cases(ctx, n):
             ctx.violation('correspondence', 'goal value: implementation %r vs %s model %s' % (gv, kind, mo[:80]), dict(case, model=mo[:200]))
 
 
+def canary(ctx):
+    """The search loops of the implementation are jitted `while` loops: a defect there can make a call never return
+    (and an in-process call cannot be interrupted).  Run a sample of detour cases in a child process with a timeout
+    first; report the case that hangs as a failing input and abandon the in-process run."""
+    import json
+    import random
+    import subprocess
+    import sys
+    import tempfile
+    rng = random.Random(ctx.rng.getrandbits(32))
+    cases = []
+    for i in range(30):
+        cases.append(gen_api_case(rng, maze(rng, rng.randint(3, 9), rng.randint(3, 9)), conn=(4, 8)[i % 2], unit=True, fam='centre'))
+    for i in range(60):
+        h, w = rng.choice([(2, 2), (2, 3), (3, 3), (3, 4), (1, 4)])
+        lay = [[1.0 if rng.random() < 0.75 else 0.0 for _ in range(w)] for _ in range(h)]
+        cases.append(gen_api_case(rng, lay, snap=(i % 2 == 0, i % 3 == 0), unit=True, fam='centre'))
+    d = tempfile.mkdtemp(prefix='c14canary')
+    cf, pfile = os.path.join(d, 'cases.json'), os.path.join(d, 'progress')
+    from harness import common
+    json.dump(common.jsonable(cases), open(cf, 'w'))
+    limit = 120
+    try:
+        p = subprocess.run([sys.executable, '-m', 'harness.props.c14', '--canary', cf, pfile], timeout=limit,
+                           stdout=subprocess.PIPE, stderr=subprocess.PIPE, cwd=common.VERIF)
+        if p.returncode != 0:
+            ctx.violation('correspondence', 'canary process failed: %s' % p.stderr.decode()[-300:], {'canary': True})
+        return True
+    except subprocess.TimeoutExpired:
+        try:
+            i = int(open(pfile).read().strip() or 0)
+        except Exception:
+            i = 0
+        case = cases[min(i, len(cases) - 1)]
+        ctx.case(case)
+        ctx.violation('oracle', 'a_star_search did not return within %d s (non-terminating search loop) for start %r goal %r on a %dx%d '
+                      'surface' % (limit, case['start'], case['goal'], len(case['data']), len(case['data'][0])),
+                      dict(case, hang=True), key=None)
+        return False
+
+
+def _canary_main(cf, pfile):
+    import json
+    cases = json.load(open(cf))
+    for i, c in enumerate(cases):
+        with open(pfile, 'w') as f:
+            f.write(str(i))
+        c['data'] = [[float(v) for v in row] for row in c['data']]
+        run_api(c)
+
+
 def run(ctx):
     pf = _pf()
     rng = ctx.rng
     quick = ctx.quick()
     ctx.exhaustive = False
+    if not canary(ctx):
+        return
     if quick:
-        kshapes = [(h, w) for h in (1, 2, 3) for w in (1, 2, 3)]
+        kshapes = [(h, w) for h in (1, 2, 3) for w in (1, 2, 3)] + [(2, 4), (4, 2), (1, 5), (5, 1)]
     else:
         kshapes = [(h, w) for h in (1, 2, 3) for w in (1, 2, 3, 4)] + [(4, 1), (4, 2), (4, 3)]
     exhaustive_kernel(ctx, pf, kshapes)
     exhaustive_snap(ctx, pf, kshapes)
     # ---- public API on sampled small layouts (unit + fractional coordinates), snap on/off -------------
     cases = []
-    n_small = 1200 if quick else 12000
+    n_small = 2000 if quick else 16000
     for i in range(n_small):
         h, w = rng.choice([(2, 2), (2, 3), (3, 2), (3, 3), (3, 3), (1, 3), (3, 1), (3, 4), (4, 3)])
         lay = [[1.0 if rng.random() < 0.6 else 0.0 for _ in range(w)] for _ in range(h)]
         snap = [(False, False), (True, False), (False, True), (True, True)][i % 4]
-        cases.append(gen_api_case(rng, lay, conn=(4, 8)[(i // 4) % 2], snap=snap, unit=(i % 3 == 0)))
+        cases.append(gen_api_case(rng, lay, conn=(4, 8)[(i // 4) % 2], snap=snap, unit=(i % 3 == 0),
+                                  dtype='int64' if i % 10 == 9 else 'float64'))
     # snapping corner cases: a single crossable cell, every position, every end point
     for (h, w) in [(2, 2), (3, 3), (2, 4), (3, 2)]:
         for y in range(h):
@@ -910,9 +966,11 @@ def run(ctx):
     api_batch(ctx, cases, 'api-small')
     # ---- mazes with forced detours ---------------------------------------------------------------------
     cases = []
-    n_maze = 500 if quick else 6000
+    n_maze = 2000 if quick else 12000
     for i in range(n_maze):
         h, w = rng.randint(3, 9), rng.randint(3, 9)
+        if i % 3 == 0:
+            h, w = rng.randint(6, 9), rng.randint(6, 9)
         cases.append(gen_api_case(rng, maze(rng, h, w), conn=(4, 8)[i % 2], unit=(i % 4 == 0)))
     api_batch(ctx, cases, 'api-maze')
     # ---- malformed / edge stream -----------------------------------------------------------------------
@@ -988,3 +1046,10 @@ def replay_case(ctx, case):
                 ctx.violation('oracle', '_get_pixel_id: coordinate %r denotes cell %r, got %r' % (case['point'][k], sorted(near), got[k]),
                               dict(case, got=list(got)), key='pixel-id-truncates')
                 return
+
+
+if __name__ == '__main__':
+    import sys
+    if len(sys.argv) == 4 and sys.argv[1] == '--canary':
+        warnings.filterwarnings('ignore')
+        _canary_main(sys.argv[2], sys.argv[3])
